@@ -32,6 +32,21 @@ CLAIMS = {
             'Assumes the day-line abstraction (C01/C07): consecutive integers, pillar (n+49) mod 60, weekday (n+1) mod 7. Not decided: on which '
             'civil days the solstices fall (numeric), and the day star before the first turning day of a civil year beyond the -1/day recurrence.',
             'DESIGN.md §3 C17'),
+    'C08': ('PETE tables (Five Tigers) + real switching code evaluated on scenario calendars with the numeric layer replaced by oracles',
+            'Five-Tigers first-month / month pillars for all 60 year pillars (both copies); the sexagenary-month carry incl. year 0; and the real '
+            'year/month switching code of the day view (every day of a year x 5 positions of the lunar new year relative to Lichun) and of the '
+            'instant view (all critical instants around the 12 Jie, comparator levels second/minute/hour exercised) are evaluated from the syntax '
+            'tree and compared with the Lichun/Jie rule; the two views are compared on every day without a Jie.',
+            'The numeric layer (civil date<->day number, term days/instants, lunar month table) is replaced by independent stand-ins, so the verdict is '
+            'about the switching structure, not about on which civil day a term falls (C05/C06). Scenario calendars are synthetic but respect the real '
+            'calendar\'s ordering constraints (new year within Jan 21..Feb 20).', 'DESIGN.md §3 C08'),
+    'C09': ('PETE exhaustive 60x24 tables; wiring tables; inverse search evaluated on a 75-year scenario calendar',
+            'Hour pillar (branch, Five-Rats stem, 23:00 roll) for all 60 day pillars x 24 hours in the lunar view and on a scenario calendar in the '
+            'instant view; slot indices; the eight characters are (year, month, day, hour) in order through the constructor and both providers; '
+            'the inverse search is evaluated for 258 (instant, year range) samples covering every double-hour, Jie days, year ends and range edges: '
+            'every returned instant has the requested characters and one lies inside the originating double-hour.',
+            'Numeric layer replaced by oracles as in C08. Completeness of the inverse search over arbitrary ranges on the real calendar is not decided.',
+            'DESIGN.md §3 C09'),
 }
 
 PENDING_REASON = 'check not built yet (DESIGN.md gives the planned static clauses); will be claimed once its rule engine exists'
